@@ -906,6 +906,7 @@ class Emit:
              'one constructor `askN` per program point at which the method waits for an outcome of',
              '`_run_simulation` (arguments: the non-constant live values there), `ret` = the method returned',
              '(`current_rep`, results, `num_skipped_reps` value, what the final `save_partial_results` got).', '-/',
+             'set_option linter.unusedVariables false', '',
              'namespace PyPhysim.Generated.C05Loop', 'open PyPhysim.C05', '', 'variable {R : Type}', '']
         L.append('/-- where the method is: waiting for a repetition (`askN`) or finished (`ret rep acc skipped saved`) -/')
         L.append('inductive Ctl (R : Type)')
